@@ -17,6 +17,8 @@ EXPLANATION = (
     "nothing (close table); the writer resets once when it is set up and validates before emitting (Writer table). Class "
     "resolution: both name-to-class maps are built from __subclasses__() of the abstract bases when a Cid is constructed "
     "and looked up by the last dotted part plus the FieldFormat / Check suffix, identically for built-ins and plugins."
+    " Added in rounds 6 and 7: (O20.5) every Reader / Writer the package itself creates (command line, rows(),"
+    " validate(), GUI) is closed on every path."
 )
 ASSUMPTIONS = ["plugins subclass the abstract bases directly (documented); the plugin's own code is not analysed"]
 
